@@ -164,7 +164,7 @@ Example ex_run_completes :
           EvRun (box_wrap (ex_entry 4 16 8)); EvRun (ex_entry 5 2000 4);
           EvEmpty true; EvEmpty false;
           EvDrop (ex_entry 7 5 1); EvDrop (ex_entry 6 9 128) ], fs)
-    /\ map fq_geometry fs = [ (8200, 0, 2048); (0, 0, 0) ].
+    /\ map fq_is_empty fs = [ true; true ].
 Proof. eexists. split; vm_compute; reflexivity. Qed.
 
 (** the hypotheses of [flat_push_total] hold for the empty queue and a 4 KiB, 128-aligned closure *)
